@@ -285,6 +285,32 @@ def callBindLoop : List Ty → List Ty → Bnd → Except CallErr Bnd
       | some acc' => callBindLoop ps as acc'
   | _, _, acc => .ok acc
 
+mutual
+/-- `XType::mentions_generic` -/
+def mentionsGeneric (g : String) : Ty → Bool
+  | .generic a => a == g
+  | .native _ ts => mentionsGenericList g ts
+  | .tuple ts => mentionsGenericList g ts
+  | .callable ps r => mentionsGenericList g ps || mentionsGeneric g r
+  | .func _ ps _ r => mentionsGenericList g ps || mentionsGeneric g r
+  | .compound _ _ ts => mentionsGenericList g ts
+  | _ => false
+def mentionsGenericList (g : String) : List Ty → Bool
+  | [] => false
+  | t :: ts => mentionsGeneric g t || mentionsGenericList g ts
+end
+
+/-- `XFuncSpec::rtype_for_call`: a generic parameter of the function that the arguments left unbound, and that no
+argument type mentions (it only met the bottom type), is the bottom type in the return type -/
+def fillUnbound (args : List Ty) (b : Bnd) : List String → Bnd
+  | [] => b
+  | g :: gs =>
+    if (b.get g).isNone && !(mentionsGenericList g args) then fillUnbound args (b.insert g .unknown) gs
+    else fillUnbound args b gs
+
+def rtypeForCall (gens : Option (List String)) (ret : Ty) (b : Bnd) (args : List Ty) : Ty :=
+  resolveBind (fillUnbound args b (gens.getD [])) ret
+
 def typeOfCall (callee : Ty) (args : List Ty) : Except CallErr Ty :=
   match callee with
   | .callable ps r =>
@@ -293,12 +319,12 @@ def typeOfCall (callee : Ty) (args : List Ty) : Except CallErr Ty :=
       match callBindLoop ps args [] with
       | .error e => .error e
       | .ok _ => .ok r
-  | .func _ ps nreq r =>
+  | .func gens ps nreq r =>
     if args.length < nreq || args.length > ps.length then .error .callableBindingFailed
     else
       match callBindLoop ps args [] with
       | .error e => .error e
-      | .ok b => .ok (resolveBind b r)
+      | .ok b => .ok (rtypeForCall gens r b args)
   | _ => .error .notAFunction
 
 /-! ### the syntactic positions in which a type is required -/
